@@ -92,7 +92,8 @@ const smtPrelude = `(set-option :produce-models true)
 `
 
 // Axioms for the uninterpreted math functions (A6). Added only to obligations that mention them.
-const smtSqrtAxioms = `(assert (forall ((x Real)) (! (=> (>= x 0.0) (and (>= (u_sqrt x) 0.0) (= (* (u_sqrt x) (u_sqrt x)) x))) :pattern ((u_sqrt x)))))
+const smtSqrtAxioms = `(assert (forall ((x Real)) (! (=> (>= x 0.0) (and (>= (to_int (u_sqrt x)) 0) (<= (to_real (* (to_int (u_sqrt x)) (to_int (u_sqrt x)))) x) (> (to_real (* (+ (to_int (u_sqrt x)) 1) (+ (to_int (u_sqrt x)) 1))) x) (<= (to_real (to_int (u_sqrt x))) (ite (>= x 1.0) x 1.0)))) :pattern ((to_int (u_sqrt x))))))
+(assert (forall ((x Real)) (! (=> (>= x 0.0) (and (>= (u_sqrt x) 0.0) (= (* (u_sqrt x) (u_sqrt x)) x))) :pattern ((u_sqrt x)))))
 (assert (forall ((x Real) (y Real)) (! (=> (and (>= x 0.0) (<= x y)) (<= (u_sqrt x) (u_sqrt y))) :pattern ((u_sqrt x) (u_sqrt y)))))
 `
 const smtLog10Axioms = `(assert (forall ((x Real) (y Real)) (! (=> (and (> x 0.0) (<= x y)) (<= (u_log10 x) (u_log10 y))) :pattern ((u_log10 x) (u_log10 y)))))
@@ -101,6 +102,7 @@ const smtLog10Axioms = `(assert (forall ((x Real) (y Real)) (! (=> (and (> x 0.0
 (assert (= (u_log10 100.0) 2.0))
 (assert (= (u_log10 1000.0) 3.0))
 (assert (forall ((x Real)) (! (=> (> x 0.0) (< (u_log10 x) x)) :pattern ((u_log10 x)))))
+(assert (forall ((x Real)) (! (and (=> (>= x 1.0) (>= (u_log10 x) 0.0)) (=> (>= x 10.0) (>= (u_log10 x) 1.0)) (=> (>= x 100.0) (>= (u_log10 x) 2.0)) (=> (>= x 1000.0) (>= (u_log10 x) 3.0)) (=> (and (> x 0.0) (<= x 10000000000000000000.0)) (<= (u_log10 x) 19.0))) :pattern ((u_log10 x)))))
 `
 
 type SolverResult struct {
